@@ -8,7 +8,6 @@ import (
 	"net"
 	"net/url"
 	"os"
-	"sort"
 	"strings"
 	"sync"
 	"sync/atomic"
@@ -370,7 +369,7 @@ func (w *wcase) newAddr(tag string) string {
 		}
 		return fmt.Sprintf("ipc://%s/c10-%d-%s%d.sock", dir, os.Getpid(), tag, w.seq)
 	}
-	return w.tcpAddr("127.0.0.1:0")
+	return w.tcpAddr(loopIP() + ":0")
 }
 
 func (w *wcase) tcpAddr(hostport string) string {
@@ -395,27 +394,31 @@ func (w *wcase) hostport(addr string) string {
 	return u.Host
 }
 
-// deadAddr returns an address of the transport where nobody listens.  TCP ports are taken
-// from below the ephemeral range so that no other process is handed the port by the kernel
-// while the case runs.
+// loopIP is the loopback address of this worker process.  All of 127.0.0.0/8 is local; every
+// worker uses an address of its own (derived from its pid), so that a port the kernel hands
+// to another process - another worker, another test run on the machine - can never be the
+// port a case of this process has just closed, is still dialling, or binds again: without
+// this, listeners of concurrent workers were observed to be given the port a case had closed
+// milliseconds before (rebind "address already in use", foreign connection attempts).  The
+// ports themselves are still assigned by the OS (":0").
+func loopIP() string {
+	pid := os.Getpid()
+	return fmt.Sprintf("127.%d.%d.%d", 1+(pid>>16)&0x3f, (pid>>8)&0xff, pid&0xff)
+}
+
+// deadAddr returns an address of the transport where nobody listens.
 func (w *wcase) deadAddr() string {
 	switch w.t.family {
 	case "inproc", "unix":
 		return w.newAddr("dead")
 	}
-	pid := os.Getpid()
-	for i := 0; i < 200; i++ {
-		port := 10000 + (pid*13+i*1009)%20000
-		hp := fmt.Sprintf("127.0.0.1:%d", port)
-		l, err := net.Listen("tcp", hp)
-		if err != nil {
-			continue
-		}
-		_ = l.Close()
-		return w.tcpAddr(hp)
+	l, err := net.Listen("tcp", loopIP()+":0")
+	if err != nil {
+		w.setupFail("no free port for a dead address: %v", err)
 	}
-	w.setupFail("no free port for a dead address")
-	return ""
+	hp := l.Addr().String()
+	_ = l.Close()
+	return w.tcpAddr(hp)
 }
 
 func (w *wcase) opts(server bool) map[string]interface{} {
@@ -672,7 +675,7 @@ func (w *wcase) rawListen(mode string) string {
 		addr = w.newAddr("raw")
 		ln, err = net.Listen("unix", w.hostport(addr))
 	} else {
-		ln, err = net.Listen("tcp", "127.0.0.1:0")
+		ln, err = net.Listen("tcp", loopIP()+":0")
 		if err == nil {
 			addr = w.tcpAddr(ln.Addr().String())
 		}
@@ -893,12 +896,11 @@ func (w *wcase) closeAndJudge() {
 	}
 	ok := poll(censusBound, censusStep, clean)
 	res.CensusMs = time.Since(t0).Milliseconds()
-	leaked := false
+	leaked := !ok // something is left over: the late checks below would only repeat it
 	if !ok {
 		fdNow := socketFDs()
 		seen := map[string]bool{}
 		for _, l := range leaks {
-			leaked = true
 			if seen[l.fn] {
 				continue
 			}
@@ -1002,7 +1004,7 @@ func (w *wcase) rebind(addr string) {
 	case "tcp":
 		l, err := net.Listen("tcp", w.hostport(addr))
 		if err != nil {
-			w.res.fail("address-still-bound", "rebind", "fail", "net.Listen(tcp, %s) right after Close: %v", w.hostport(addr), err)
+			w.res.fail("address-still-bound", "rebind", "fail", "net.Listen(tcp, %s) right after Close: %v%s", w.hostport(addr), err, portHolders(w.hostport(addr)))
 			return
 		}
 		_ = l.Close()
@@ -1086,11 +1088,50 @@ func (w *wcase) watch() int {
 	return int(atomic.LoadInt64(&count))
 }
 
-func sortedKeys(m map[string]bool) []string {
-	var out []string
-	for k := range m {
-		out = append(out, k)
+// portHolders describes, from /proc/net/tcp, the sockets that have the port of hostport as
+// their local port, and whether they belong to this process (diagnostics only).
+func portHolders(hostport string) string {
+	_, ps, err := net.SplitHostPort(hostport)
+	if err != nil {
+		return ""
 	}
-	sort.Strings(out)
-	return out
+	var port int
+	fmt.Sscanf(ps, "%d", &port)
+	mine := map[string]bool{}
+	if ents, err := os.ReadDir("/proc/self/fd"); err == nil {
+		for _, e := range ents {
+			if t, err := os.Readlink("/proc/self/fd/" + e.Name()); err == nil && strings.HasPrefix(t, "socket:[") {
+				mine[strings.TrimSuffix(strings.TrimPrefix(t, "socket:["), "]")] = true
+			}
+		}
+	}
+	b, err := os.ReadFile("/proc/net/tcp")
+	if err != nil {
+		return ""
+	}
+	states := map[string]string{"01": "ESTABLISHED", "02": "SYN_SENT", "03": "SYN_RECV", "04": "FIN_WAIT1", "05": "FIN_WAIT2", "06": "TIME_WAIT", "07": "CLOSE", "08": "CLOSE_WAIT", "09": "LAST_ACK", "0A": "LISTEN", "0B": "CLOSING"}
+	var out []string
+	for _, ln := range strings.Split(string(b), "\n")[1:] {
+		f := strings.Fields(ln)
+		if len(f) < 10 {
+			continue
+		}
+		var lp int
+		if i := strings.IndexByte(f[1], ':'); i < 0 {
+			continue
+		} else if _, err := fmt.Sscanf(f[1][i+1:], "%X", &lp); err != nil || lp != port {
+			continue
+		}
+		owner := "another process"
+		if mine[f[9]] {
+			owner = "this process"
+		} else if f[9] == "0" {
+			owner = "no process"
+		}
+		out = append(out, fmt.Sprintf("%s->%s %s (%s)", f[1], f[2], states[f[3]], owner))
+	}
+	if len(out) == 0 {
+		return ""
+	}
+	return "; sockets with that local port: " + strings.Join(out, ", ")
 }
